@@ -929,7 +929,10 @@ def run_blockretrym(case, res):
         res.execs += 1
         check_common(res, deadlock_suffix="@blocking-throttle-below-retry/manual")
         stuck = [i for i, f in enumerate(futs) if not f.done()]
-        if (not ok or stuck or len(futs) < 3) and not LM.deadlocks:
+        if not ok:
+            # (a drive that reported a hold-up on the way is no verdict: only what is left undone at the end is)
+            res.count("blockretrym.drive_not_ok")
+        if (stuck or len(futs) < 3) and not LM.deadlocks:
             res.violation("hang/blocking-throttle-below-retry/manual-completion",
                           "%s: a delegate thread ending the in-flight work did not get the queue moving: submit() returned for %d of 3, "
                           "futures %s never complete: %s" % (">".join(layers), len(futs), stuck, instr.describe_threads()), stacks=hang_report(ctx.actors))
